@@ -193,3 +193,25 @@ Proof. pose proof MP.content_flip_is_accepted as H. cbv zeta in H |- *. destruct
 Print Assumptions C16_tools_accept_every_written_metadata.
 Print Assumptions C16_metadata_with_trailing_bytes_rejected.
 Print Assumptions C16_metadata_content_flip_undetected_refuted.
+
+(* REFUTED clauses recorded as known findings (the model mirrors the code, so the witnesses are computed in it and
+   replayed on the crate by regress/C16/f31_*.txt and f32_*.txt):
+   F31 -- the version field of the blob header is covered by no checksum and the tools accept every version: the blob with
+   its version byte flipped (1 -> 0) passes validate_blob, recovery copies the header, and the storage refuses the result;
+   F32 -- recovery with skipping steps over a damaged record by that record's own sizes: one flipped bit in the data-size
+   field of record 2 and the intact record 3 is not in the output (only record 1 is). *)
+Theorem C16_blob_header_version_flip_undetected_refuted :
+  flip_at c16_blob 8 <> c16_blob /\
+  tool_validate_blob c16_meta_ok (flip_at c16_blob 8) = true /\
+  match tool_recover c16_meta_ok (flip_at c16_blob 8) true with
+  | Some out => dispose (blob_open_scan out 4 false) = DInitFails
+  | None => False
+  end.
+Proof. vm_compute. split; [discriminate | split; reflexivity]. Qed.
+Theorem C16_size_field_flip_ends_skipping_recovery_refuted :
+  tool_validate_blob c16_meta_ok (flip_at c16_blob 122) = false /\
+  tool_recover c16_meta_ok (flip_at c16_blob 122) true = Some (blob_file_bytes 4 [mk_rec 16 7 false None 8 5 1]) /\
+  tool_recover c16_meta_ok (flip_at c16_blob 170) true = Some (blob_file_bytes 4 c16_kept).
+Proof. vm_compute. repeat split; reflexivity. Qed.
+Print Assumptions C16_blob_header_version_flip_undetected_refuted.
+Print Assumptions C16_size_field_flip_ends_skipping_recovery_refuted.
